@@ -246,6 +246,12 @@ def gen_case(run_seed: int, tier: str, index: int = 0) -> dict:
             loc = _random_loc(r)
         if r.random() < 0.06:
             loc = loc + r.choice(["/", "/.", "//"])
+        bs = st.rng("backslashes")
+        if bs.random() < 0.08:
+            # the separators of another platform: on POSIX a backslash is an ordinary character of a file name, so such a
+            # location denotes (at most) one oddly named file inside the base directory - never a path to walk
+            k_ = bs.random()
+            loc = loc.replace("/", "\\") if k_ < 0.5 else loc.replace("/", "\\", 1) if k_ < 0.8 else loc.replace("../", "..\\")
         off, ln = r.choice([(0, 16), (0, 16), (8, 16), (48, 16), (0, 64), (60, 16), (0, 1)])
         if r.random() < 0.2:
             triples.append({"level": "history", "loc": r.choice(HIST_LOCS), "first": r.choice(HIST_FIRST), "mutation": r.choice(HIST_MUTATIONS), "entry": r.choice(HIST_SECOND), "off": off if off + ln <= 64 else 0, "len": ln if off + ln <= 64 else 16, "base": 0, "stat_fault": sf})
